@@ -1,0 +1,14 @@
+//go:build verif
+
+package storage
+
+// The byte string a signature is computed over and checked against (checked by /verif/gocv).
+
+//@ func (*Message).Bytes
+//@   requires m != nil
+//@   pure
+//@   ensures[C09.bytes] content(result) == content(m.Data)
+// a signature must also bind the round and the protocol step the author produced the message for: the signed
+// bytes must be an injective encoding of (Data, Event, DkgRoundID)
+//@   ensures[C10.envelope] content(result) == envelopeEncoding(content(m.Data), m.Event, m.DkgRoundID)
+//@ ghost func envelopeEncoding(data bytesvalue, event string, round string) bytesvalue
